@@ -1084,6 +1084,16 @@ func execC05Sort(a []string) Result {
 			}
 		}
 	}
+	if !swo {
+		// the order of the whole set is undefined and the cause is reported above; only inversions between two
+		// values that are themselves within the tolerance are attributed to the output
+		inner := check
+		check = func(x, y int, what string) {
+			if c05Class(keys, recs[x], recs[y]) == "tolerance" {
+				inner(x, y, what)
+			}
+		}
+	}
 	nf := len(res.Fails)
 	for i := 1; i < len(ids) && len(res.Fails) == nf; i++ {
 		check(ids[i-1], ids[i], "adjacent results")
